@@ -96,6 +96,48 @@ Proof.
   rewrite L. rewrite Nat.leb_refl. reflexivity.
 Qed.
 
+(** *** the pinned loop: exactly when it fails (a) *)
+Theorem pinned_value_recognised_outside_known :
+  forall fuel tabs e T word s st ci v to log,
+    all_plain (lits_of T) -> plain word = true -> sorted_desc (lits_of T) ->
+    assocN s (t_mlit T) = Some st ->
+    sdrop ci word = v -> (ci < String.length word)%nat ->
+    first_enabled (lits_of T) st v = Some to ->
+    (forall id l, In (id, l) (lits_of T) -> String.prefix v l = true -> l = v /\ assocN id st <> None) ->
+    sw_loop (S (S fuel)) Pinned false tabs e T word s ci log = Ok (true, to, String.length word, log).
+Proof.
+  intros fuel tabs e T word s st ci v to log Hpl Hpw Hs Hst Hv Hci Hf Hk.
+  rewrite sw_loop_S.
+  assert (Nat.leb (String.length word) ci = false) as -> by (apply Nat.leb_gt; exact Hci).
+  cbv zeta. rewrite Hst, Hv. unfold lit_loop.
+  assert (Hpv : plain v = true) by (rewrite <- Hv; now apply plain_sdrop).
+  fold (lits_of T).
+  rewrite (lit_loop_pinned_plain st v (lits_of T) Hpl Hpv). cbn [obind].
+  rewrite (pinned_consumes_value st v (lits_of T) to Hs Hf Hk).
+  rewrite sw_loop_S.
+  assert (L : (ci + String.length v = String.length word)%nat).
+  { rewrite <- Hv, sdrop_length. lia. }
+  rewrite L. rewrite Nat.leb_refl. reflexivity.
+Qed.
+
+Theorem pinned_value_refused :
+  forall fuel tabs e T word s st ci v log,
+    all_plain (lits_of T) -> plain word = true -> sorted_desc (lits_of T) ->
+    assocN s (t_mlit T) = Some st ->
+    sdrop ci word = v -> (ci < String.length word)%nat ->
+    (exists id l, In (id, l) (lits_of T) /\ String.prefix v l = true /\ l <> v) ->
+    sw_loop (S fuel) Pinned false tabs e T word s ci log = Ok (false, s, ci, log).
+Proof.
+  intros fuel tabs e T word s st ci v log Hpl Hpw Hs Hst Hv Hci Hex.
+  rewrite sw_loop_S.
+  assert (Nat.leb (String.length word) ci = false) as -> by (apply Nat.leb_gt; exact Hci).
+  cbv zeta. rewrite Hst, Hv. unfold lit_loop.
+  assert (Hpv : plain v = true) by (rewrite <- Hv; now apply plain_sdrop).
+  fold (lits_of T).
+  rewrite (lit_loop_pinned_plain st v (lits_of T) Hpl Hpv). cbn [obind].
+  now rewrite (pinned_refuses_shorter_value st v (lits_of T) Hs Hex).
+Qed.
+
 (** *** (b) a partially typed value: the loop stops in front of it ... *)
 Theorem fixed_partial_stops :
   forall fuel tabs e T word s st ci log,
